@@ -121,6 +121,10 @@ var opMuts = []opMut{
 		b.Key = other
 		b.Headers = opb.DefaultHeaders(other)
 	}},
+	{"signed/reveal-value-of-another-key", "d", func(r *rand.Rand, b *built, cfg M) {
+		// accepted: the member is optional and not part of any check; what is reported is the request's reveal value
+		b.Signed["revealValue"] = opb.NewKey(r, opb.P256).Reveal(b.Code)
+	}},
 	{"key/substituted-resigned-with-its-reveal", "urd", func(r *rand.Rand, b *built, cfg M) {
 		// a complete, self-consistent operation by somebody else's key (the applier has no commitment check)
 		other := opb.NewKey(r, randKT(r))
